@@ -114,6 +114,15 @@ def run_C03(ctx):
                 scen.append(s)
                 if not quick:
                     scen += unary_variants(s)
+    # the error document of a non-200 unary Connect response under the same segmentations (its code must not depend on
+    # how the body arrives)
+    base = next(r for r in comp if r["sc"]["raw"] and r["sc"]["side"] == "client" and r["sc"]["limit"] == 0
+                and r["sc"]["enc"] == "none" and r["sc"]["frames"][0]["body"] == "msg")
+    for status in (409, 503):
+        rnd = [[ctx.rng.randint(1, 7) for _ in range(120)] for _ in range(4 if quick else 16)]
+        for script in [[], ONES, SPLIT] + rnd:
+            for ew in (False, True):
+                scen.append(flat(base, script, ew, status=status))
     ctx.notes["exhaustive_segmentations"] = len(segs)
     _run(ctx, scen, "c03")
     return core.finish(ctx, rule=RULE, exhaustive=not quick, assumptions=[
@@ -139,7 +148,8 @@ def run_C04(ctx):
     # HTTPClient.Do itself fails: no response at all (every protocol, stream- and unary-shaped APIs)
     for r in allsc:
         sc = r["sc"]
-        if sc["side"] == "client" and sc["cut"] == 0 and sc["tail"] != "eof" and sc["limit"] == 0 and sc["enc"] == "none":
+        if (sc["side"] == "client" and sc["cut"] == 0 and sc["limit"] == 0 and sc["enc"] == "none"
+                and sc["trailers"] == "none"):      # (tail "eof": net/http's `Post "...": EOF`)
             s = flat(r, [], False, doerr=True)
             scen.append(s)
             scen += unary_variants(s)
